@@ -22,7 +22,7 @@ SPEC = {
 ],
     "manifest": {
         "category": "proof",
-        "text": "Proved for ALL histories without reopen steps (C07_erase_partial): if no abandoned transaction calls set_vector or registers a new label/type name, erasing the abandoned transactions changes no read (dump and vector ids); C07_abandon_state: such a transaction leaves the whole engine state unchanged except the txid counter. Refuted in general (C07_refuted, K-C07-vector: set_vector acts on the index at call time). The model follows /repo's search_vector after b0237dc (ids of nodes tombstoned in a published run are filtered out of the result). NOT proved: histories with reopen steps after an abandoned transaction (needs invariance of recovery under a shift of transaction ids) and abandoned transactions that register new names (names persist in the interner; not visible in the dump) \u2014 both only sampled: the implementation is re-run on the erased history and compared step by step.",
+        "text": "Proved for ALL histories without reopen steps (C07_erase_partial): if no abandoned transaction calls set_vector or registers a new label/type name, erasing the abandoned transactions changes no read (dump and vector ids); C07_abandon_state: such a transaction leaves the whole engine state unchanged except the txid counter. Refuted in general (C07_refuted, K-C07-vector: set_vector acts on the index at call time). The model follows /repo's search_vector after b0237dc (ids of nodes tombstoned in a published run are filtered out of the result). Unsuccessful transactions of the generated histories end in two ways: dropped before commit, or commit() returning an error after part of their records reached the log (a 1.1 MiB property record above the WAL record limit, or an I/O fault injected at the first or second step of commit through the verif_io hook), followed by committed transactions and reopens; both are HTxn _ false for the model (whose log is the list of committed transactions recovery returns), so a recovery that merges leftover records is a correspondence mismatch and a direct failure against the erased history. NOT proved: histories with reopen steps after an abandoned transaction (needs invariance of recovery under a shift of transaction ids) and abandoned transactions that register new names (names persist in the interner; not visible in the dump) \u2014 both only sampled: the implementation is re-run on the erased history and compared step by step.",
         "design_ref": "DESIGN.md §5 C07 (Storage: logical content)",
         "level_note": "Trusted: Coq kernel; hand-written model tied to the code by sampled correspondence (not by proof). The full statement is REFUTED on the pinned code (witness theorem, reproduced on the implementation, recorded as known findings); conditional theorems cover only the part stated in the text.",
         "technique": "Rocq: executable faithful model + spec graph, refutation witnesses by vm_compute, invariants by induction over histories; vm_compute model/implementation correspondence on generated histories; direct search against a reference graph / erased or stripped re-runs on the implementation",
